@@ -203,7 +203,7 @@ class Ctx:
             self.extra["violations_dropped_over_cap"] += 1
             return
         if old is None or size < old["size"]:
-            self.violations[fp] = {"fp": fp, "msg": msg, "case": case, "size": size}
+            self.violations[fp] = {"fp": fp, "msg": msg, "case": case, "size": size, "origin": self.job.get("name", "")}
 
     def result(self):
         return {
@@ -275,6 +275,8 @@ def _clean_env():
 
 def run_case(mod, case):
     """Re-execute one replay case in this process; returns the list of violations (dicts)."""
+    if "whole_job" in case:
+        return _run_one((mod.__name__, case["whole_job"]))
     job = {"name": case.get("job", "replay"), "single": case}
     job.update(case.get("jobparams", {}))
     return _run_one((mod.__name__, job))
@@ -370,16 +372,28 @@ def run_property(mod, tier, nproc=None):
     # replay discipline: a violation is only reported if it reproduces identically twice
     out_dir = os.path.join(VERIF, "out", "replays", mod.PROP)
     lines = []
+    byname = {j.get("name", ""): j for j in jobs}
     for v in reported[:MAX_REPORT]:
+        whole = False
         for attempt in range(2):
-            rr = run_case(mod, v["case"])
+            rr = run_case(mod, v["case"]) if not whole else _run_one((mod.__name__, byname[v["origin"]]))
             if rr.get("harness_error"):
                 sys.stdout.write("HARNESS-ERROR property=%s replaying %s\n%s\n" % (mod.PROP, v["fp"], rr["harness_error"]))
                 return 2
             if v["fp"] not in [x["fp"] for x in rr["violations"]]:
+                if not whole and attempt == 0 and v.get("origin") in byname:
+                    # the case alone does not fail: the violation may depend on earlier cases of its job (state the
+                    # library keeps between calls). Replay the whole job, twice; it is deterministic.
+                    whole = True
+                    r1 = _run_one((mod.__name__, byname[v["origin"]]))
+                    if v["fp"] in [x["fp"] for x in r1["violations"]]:
+                        continue
                 sys.stdout.write("HARNESS-NONDETERMINISM property=%s fp=%s did not reproduce on replay %d\n"
                                  % (mod.PROP, v["fp"], attempt + 1))
                 return 2
+        if whole:
+            v["case"] = {"whole_job": byname[v["origin"]], "job": v["origin"]}
+            v["msg"] += "  [needs the preceding cases of job %s: the library keeps state between calls]" % v["origin"]
         os.makedirs(out_dir, exist_ok=True)
         name = hashlib.sha1(v["fp"].encode()).hexdigest()[:12] + ".json"
         path = os.path.join(out_dir, name)
